@@ -765,7 +765,8 @@ class _PairsClassifierMixin(BaseMetricLearner, ClassifierMixin):
                          '[0, 1]. '
                          'Got {} instead.'.format(min_rate))
     if strategy == 'f_beta':
-      if beta is None or not isinstance(beta, (int, float)):
+      if (beta is None or not isinstance(beta, (int, float)) or
+              not beta <= beta):  # (the last test: NaN)
         raise ValueError('Parameter beta must be a real number. '
                          'Got {} instead.'.format(type(beta)))
 
